@@ -123,6 +123,14 @@ func ReconPlanes(y, u, v []byte, yStride, uvStride, w, h int) {
 	reconMu.Unlock()
 }
 
+var noLoopFilter atomic.Bool
+
+// SetNoLoopFilter makes the lossy decoder skip in-loop deblocking (to observe the unfiltered reconstruction).
+func SetNoLoopFilter(b bool) { noLoopFilter.Store(b) }
+
+// NoLoopFilter is consulted by the lossy decoder after parsing the filter header.
+func NoLoopFilter() bool { return noLoopFilter.Load() }
+
 // PoolHit counts a Get that returned a pooled object.
 func PoolHit(name string) {
 	c, _ := poolHits.LoadOrStore(name, new(atomic.Int64))
